@@ -7,12 +7,13 @@
 
 static Profile profile_for(const std::string& mode) {
   Profile p;
-  if (mode == "C03") { p.p_aligned = 70; p.w_realloc = 14; p.w_expand = 3; p.w_heap = 2; p.w_talloc = 0; }
+  if (mode == "C01") { p.w_defer = 2; p.rare_api = true; }
+  else if (mode == "C03") { p.p_aligned = 70; p.w_realloc = 14; p.w_expand = 3; p.w_heap = 2; p.w_talloc = 0; }
   else if (mode == "C04") { p.p_zero = 55; p.w_realloc = 16; p.w_zchain = 14; p.w_tfree = 4; p.w_heap = 5; p.w_churn = 4; }
-  else if (mode == "C05") { p.w_realloc = 30; p.w_expand = 5; p.w_alloc = 25; p.w_edge = 3; }
+  else if (mode == "C05") { p.w_realloc = 30; p.w_expand = 5; p.w_alloc = 25; p.w_edge = 3; p.rare_api = true; }
   else if (mode == "C06") { p.w_edge = 25; p.big_ok = false; }
   else if (mode == "C10") { p.w_heap = 16; p.p_heap_api = 60; p.w_tfree = 3; p.w_talloc = 3; p.arenas = true; p.big_ok = false; }
-  else if (mode == "C12") { p.w_visit = 12; p.w_fill = 12; p.w_holes = 10; p.stop_visits = true; p.w_tfree = 4; p.w_talloc = 2; p.big_ok = false; }
+  else if (mode == "C12") { p.w_visit = 12; p.w_fill = 12; p.w_holes = 10; p.stop_visits = true; p.w_tfree = 4; p.w_talloc = 2; p.big_ok = false; p.w_defer = 3; }
   else if (mode == "C09") { p.w_talloc = 12; p.w_tfree = 6; p.w_collect = 6; p.w_visit = 6; p.w_heap = 2; p.big_ok = false; p.w_fill = 8; p.w_churn = 4; }
   else if (mode == "C13") { p.w_tick = 9; p.w_collect = 6; p.w_visit = 4; p.p_aligned = 25; p.p_zero = 30; p.w_realloc = 12; p.w_zchain = 4; p.stop_visits = true; }
   return p;
